@@ -1,12 +1,35 @@
-import Sif.Spec.C05
+import Sif.Proofs.C05
 /-
-  C05 — bridge prophecies need the whitelisted-power threshold and are final.  Property theorems only.
+  C05 — bridge prophecies need the whitelisted-power threshold and are final.
+  Property theorems only (helper lemmas: Sif/Proofs/C05.lean).  Quantifiers: every validator set, every
+  power, every whitelist (duplicates included), every store of prophecies with well-formed tallies
+  (`OStateWF`, an invariant: `wf_init`, `wf_preserved`), every claim, every iteration order `ord` of the Go
+  map `ClaimValidators` (any function that returns a permutation of its argument).
 -/
 namespace Sif.Props.C05
-open Sif.Oracle Sif.Spec.C05
+open Sif.Oracle Sif.Spec.C05 Sif.Generated
 
-/-- A claim by a validator that is not in the whitelist is rejected (`ErrValidatorNotInWhiteList`); an
-    error return carries no state, so nothing changes. -/
+/-! ### facts regenerated from the source on every run -/
+
+/-- the threshold the model uses is the one in the source: `DefaultConsensusNeeded = 0.7`, passed by app.go,
+    compared with `>=` (success) and `<` (failed); the tally keeps the first strictly larger claim; a claimant's
+    power is counted only if it is in the current bonded set and in the whitelist -/
+theorem facts_threshold :
+    BridgeConsts.consensusNum = 7 ∧ BridgeConsts.consensusDen = 10 ∧
+    BridgeConsts.appConsensusArg = "oracletypes.DefaultConsensusNeeded" ∧
+    BridgeConsts.successCmp = ">=" ∧ BridgeConsts.failedCmp = "<" ∧ BridgeConsts.tallyCmp = ">" ∧
+    BridgeConsts.claimPowerNeedsWhitelist = true ∧ BridgeConsts.unreadable = [] := by decide
+
+/-- `ProcessClaim` returns its guards' errors in the modelled order, before `AddClaim` -/
+theorem facts_processClaim :
+    BridgeConsts.processClaimErrors = ["ErrInvalidValidator", "ErrInvalidIdentifier", "ErrInvalidClaim", "ErrProphecyFinalized", "ErrDuplicateMessage"] ∧
+    BridgeConsts.processClaimCalls = ["EnsureAddressIsInWhitelist", "checkActiveValidator", "GetProphecy", "AddClaim", "processCompletion", "SetProphecy"] := by
+  decide
+
+/-! ### rejected claims -/
+
+/-- A claim by a validator that is not in the whitelist is rejected (`ErrValidatorNotInWhiteList`); an error
+    return carries no state, so nothing changes. -/
 theorem claim_rejected_not_whitelisted (ord : List Group → List Group) (vals : List Validator) (st : OState) (c : Claim)
     (h : inWhiteList st.whitelist c.validator = false) :
     processClaim ord vals st c = .error .notWhitelisted := by
@@ -14,5 +37,210 @@ theorem claim_rejected_not_whitelisted (ord : List Group → List Group) (vals :
   simp [h]
 
 example : inWhiteList (OState.mk [1, 2] [] none).whitelist 3 = false := by decide
+
+/-- A claim by a whitelisted validator that staking does not know, or that is not bonded, is rejected
+    (`ErrInvalidValidator`). -/
+theorem claim_rejected_not_bonded (ord : List Group → List Group) (vals : List Validator) (st : OState) (c : Claim)
+    (hw : inWhiteList st.whitelist c.validator = true) (h : checkActive vals c.validator = false) :
+    processClaim ord vals st c = .error .invalidValidator := by
+  unfold processClaim
+  simp [hw, h]
+
+example : checkActive [⟨1, 10, false⟩] 1 = false ∧ checkActive [⟨1, 10, true⟩] 2 = false := by decide
+
+/-- A validator counts at most once per prophecy (1): a second claim by the same validator on a pending
+    prophecy — same or different content — is rejected (`ErrDuplicateMessage`). -/
+theorem claim_once_per_validator (ord : List Group → List Group) (vals : List Validator) (st : OState) (c : Claim)
+    (hw : inWhiteList st.whitelist c.validator = true) (ha : checkActive vals c.validator = true)
+    (hid : c.id ≠ "") (hc : c.content ≠ .empty) (hp : (target st c).status = .pending)
+    (hdup : hasClaim (target st c) c.validator = true) :
+    processClaim ord vals st c = .error .duplicate := by
+  unfold processClaim
+  unfold target at hp hdup
+  simp [hw, ha, hid, hc, hp, hdup]
+
+example : hasClaim (target ⟨[1], [⟨"a", .pending, .empty, [(.eth 1 2 "x" 0 2, [1])], [(1, .eth 1 2 "x" 0 2)]⟩], none⟩
+    ⟨"a", 1, .eth 1 3 "x" 0 2⟩) 1 = true := by decide
+
+/-- A validator counts at most once per prophecy (2): well-formedness of every tally (no validator in two claim
+    groups or twice in one; the two maps agree) holds initially and is preserved by every accepted claim. -/
+theorem wf_init : OStateWF OState.init := by
+  intro p hp
+  simp [OState.init] at hp
+
+theorem wf_preserved (ord : List Group → List Group) (vals : List Validator) (st st' : OState) (c : Claim)
+    (s : StatusText) (f : Content) (hwf : OStateWF st) (h : processClaim ord vals st c = .ok (st', s, f)) :
+    OStateWF st' := processClaim_wf hwf h
+
+example : ∃ st' s f, processClaim id [⟨1, 10, true⟩] ⟨[1], [], none⟩ ⟨"a", 1, .eth 1 2 "x" 0 2⟩ = .ok (st', s, f) :=
+  ⟨_, _, _, rfl⟩
+
+/-! ### the threshold -/
+
+/-- If a claim turns a prophecy SUCCESS with final content `fin`, then the validators that are bonded now and
+    whitelisted now and whose recorded claim is `fin` hold at least 7/10 of all bonded whitelisted power, and
+    that total is positive: `10 · support ≥ 7 · total`, `total > 0`.  (The model tests `float64(p)/float64(t) ≥ 0.7`
+    as `7·t ≤ 10·p`; see `Props/C05Float` for the float side.) -/
+theorem success_needs_threshold (ord : List Group → List Group) (hord : ∀ l, (ord l).Perm l)
+    (vals : List Validator) (st st' : OState) (c : Claim) (fin : Content)
+    (hv : ValsWF vals) (hwf : OStateWF st)
+    (h : processClaim ord vals st c = .ok (st', .success, fin)) :
+    ∃ p', getProphecy st'.prophecies c.id = some p' ∧ p'.status = .success ∧ p'.final = fin ∧
+      thresholdMet vals st'.whitelist p' = true ∧
+      7 * total vals st'.whitelist ≤ 10 * support vals st'.whitelist p'.vclaims fin ∧ 0 < total vals st'.whitelist := by
+  obtain ⟨_, _, h3, h4, h5, e1, e2, e3⟩ := processClaim_ok h
+  have hq : ProphecyWF (addClaim (target st c) c.validator c.content) := addClaim_wf _ _ _ (getD_wf st c.id hwf) h5 h3
+  have hid : (claimed ord vals st c).id = c.id := by
+    unfold claimed processCompletion
+    rw [(processCompletionOn_groups _ _ _ _).2.2]
+    exact getD_id _ _
+  -- the success branch of processCompletion was taken
+  have hbranch : ratioGE (findHighest vals st.whitelist (ord (addClaim (target st c) c.validator c.content).groups)).bestPower
+        (totalPower vals st.whitelist : Nat) = true ∧
+      fin = (findHighest vals st.whitelist (ord (addClaim (target st c) c.validator c.content).groups)).best := by
+    unfold claimed processCompletion processCompletionOn at e2 e3
+    simp only at e2 e3
+    split at e2
+    · rename_i hge
+      simp only [hge, if_true] at e3
+      exact ⟨hge, e3⟩
+    · rename_i hge
+      simp only [hge] at e3
+      split at e2
+      · cases e2
+      · have : (addClaim (target st c) c.validator c.content).status = .pending := h4
+        rw [this] at e2
+        cases e2
+  obtain ⟨hge, hfin⟩ := hbranch
+  obtain ⟨_, _, a3⟩ := foldl_tally_best vals st.whitelist (ord (addClaim (target st c) c.validator c.content).groups) Tally.init
+  have hfold : List.foldl (tallyStep vals st.whitelist) Tally.init (ord (addClaim (target st c) c.validator c.content).groups)
+      = findHighest vals st.whitelist (ord (addClaim (target st c) c.validator c.content).groups) := rfl
+  rw [hfold] at a3
+  rcases a3 with ⟨e, _⟩ | ⟨g, hg, cg, eg⟩
+  · exfalso
+    have : (findHighest vals st.whitelist (ord (addClaim (target st c) c.validator c.content).groups)).bestPower = -1 := by
+      rw [e]; rfl
+    rw [this] at hge
+    exact ratioGE_neg (by omega) hge
+  · have hg' : g ∈ (addClaim (target st c) c.validator c.content).groups := (hord _).mem_iff.mp hg
+    have hnod : g.2.Nodup := by
+      have := hq.2.1
+      rw [List.nodup_flatMap] at this
+      exact this.1 g hg'
+    have hcp : claimPower vals st.whitelist g.2 = support vals st.whitelist (addClaim (target st c) c.validator c.content).vclaims g.1 := by
+      rw [claimPower_eq vals st.whitelist g.2 hv hnod, support_eq_cpOf vals st.whitelist _ hq g hg']
+    have hle : claimPower vals st.whitelist g.2 ≤ total vals st.whitelist := by
+      rw [claimPower_eq vals st.whitelist g.2 hv hnod]; exact cpOf_le_total _ _ _
+    have hspec := ratioGE_spec (p := (claimPower vals st.whitelist g.2 : Nat)) (t := (totalPower vals st.whitelist : Nat))
+      (by rw [← show (findHighest vals st.whitelist (ord (addClaim (target st c) c.validator c.content).groups)).bestPower
+                = (claimPower vals st.whitelist g.2 : Nat) from eg]; exact hge) (by omega)
+      (by rw [totalPower_eq_total]; exact_mod_cast hle)
+    simp only [BridgeConsts.consensusNum, BridgeConsts.consensusDen] at hspec
+    rw [totalPower_eq_total] at hspec
+    have hvc : (claimed ord vals st c).vclaims = (addClaim (target st c) c.validator c.content).vclaims := by
+      unfold claimed processCompletion
+      exact (processCompletionOn_groups _ _ _ _).2.1
+    have hfg : fin = g.1 := by rw [hfin, cg]
+    have hwl : st'.whitelist = st.whitelist := by rw [e1]
+    have hineq : 7 * total vals st.whitelist ≤ 10 * support vals st.whitelist (claimed ord vals st c).vclaims fin ∧
+        0 < total vals st.whitelist := by
+      rw [hvc, hfg, ← hcp]
+      constructor
+      · exact_mod_cast hspec.1
+      · exact_mod_cast hspec.2
+    refine ⟨claimed ord vals st c, ?_, e2.symm, e3.symm, ?_, ?_, ?_⟩
+    · rw [e1, ← hid]
+      exact getProphecy_setProphecy_same _ _
+    · unfold thresholdMet
+      rw [hwl, ← e3]
+      simp only [BridgeConsts.consensusNum, BridgeConsts.consensusDen]
+      simp [hineq.1, hineq.2]
+    · rw [hwl]; exact hineq.1
+    · rw [hwl]; exact hineq.2
+
+/-- non-vacuity: validators of power 40, 30, 30, all whitelisted; 0 claimed before, 1 claims the same: SUCCESS -/
+example : ((processClaim id [⟨0, 40, true⟩, ⟨1, 30, true⟩, ⟨2, 30, true⟩]
+    ⟨[0, 1, 2], [⟨"a", .pending, .empty, [(.eth 1 2 "x" 0 2, [0])], [(0, .eth 1 2 "x" 0 2)]⟩], none⟩
+    ⟨"a", 1, .eth 1 2 "x" 0 2⟩).toOption.map (·.2)) = some (.success, .eth 1 2 "x" 0 2) := by decide
+
+/-! ### finality -/
+
+/-- Once a prophecy is not pending, every later claim on it is refused; a claim that passes the validator
+    guards is refused with `ErrProphecyFinalized`.  An error return carries no state: the prophecy is unchanged. -/
+theorem final_is_final (ord : List Group → List Group) (vals : List Validator) (st : OState) (c : Claim) (p : Prophecy)
+    (hp : getProphecy st.prophecies c.id = some p) (hs : p.status ≠ .pending) :
+    (∃ e, processClaim ord vals st c = .error e) ∧
+    (inWhiteList st.whitelist c.validator = true → checkActive vals c.validator = true → c.id ≠ "" → c.content ≠ .empty →
+      processClaim ord vals st c = .error .finalized) := by
+  have hfin : ∀ (hw : inWhiteList st.whitelist c.validator = true) (ha : checkActive vals c.validator = true)
+      (hid : c.id ≠ "") (hc : c.content ≠ .empty), processClaim ord vals st c = .error .finalized := by
+    intro hw ha hid hc
+    unfold processClaim
+    simp [hw, ha, hid, hc, hp, hs]
+  refine ⟨?_, hfin⟩
+  by_cases hw : inWhiteList st.whitelist c.validator = true
+  · by_cases ha : checkActive vals c.validator = true
+    · by_cases hid : c.id = ""
+      · exact ⟨.invalidId, by unfold processClaim; simp [hw, ha, hid]⟩
+      · by_cases hc : c.content = .empty
+        · exact ⟨.invalidClaim, by unfold processClaim; simp [hw, ha, hid, hc]⟩
+        · exact ⟨_, hfin hw ha hid hc⟩
+    · exact ⟨_, claim_rejected_not_bonded ord vals st c hw (by simpa using ha)⟩
+  · exact ⟨_, claim_rejected_not_whitelisted ord vals st c (by simpa using hw)⟩
+
+example : getProphecy (OState.mk [1] [⟨"a", .success, .eth 1 2 "x" 0 2, [], []⟩] none).prophecies "a"
+    = some ⟨"a", .success, .eth 1 2 "x" 0 2, [], []⟩ := by decide
+
+/-- Claims about other prophecies do not touch a finalized (or any) prophecy: an accepted claim with another id
+    leaves the stored prophecy as it is. -/
+theorem other_claims_do_not_touch (ord : List Group → List Group) (vals : List Validator) (st st' : OState) (c : Claim)
+    (s : StatusText) (f : Content) (id : String) (hne : c.id ≠ id)
+    (h : processClaim ord vals st c = .ok (st', s, f)) :
+    getProphecy st'.prophecies id = getProphecy st.prophecies id := by
+  obtain ⟨_, _, _, _, _, e1, _, _⟩ := processClaim_ok h
+  rw [e1]
+  apply getProphecy_setProphecy_other
+  have : (claimed ord vals st c).id = c.id := by
+    unfold claimed processCompletion
+    rw [(processCompletionOn_groups _ _ _ _).2.2]
+    exact getD_id _ _
+  rw [this]; exact hne
+
+/-! ### independence of the map iteration order -/
+
+/-- `processCompletion` (status and final claim) does not depend on the order in which the range over the Go
+    map `ClaimValidators` yields the claim groups. -/
+theorem tally_perm_invariant (ord₁ ord₂ : List Group → List Group) (h₁ : ∀ l, (ord₁ l).Perm l) (h₂ : ∀ l, (ord₂ l).Perm l)
+    (vals : List Validator) (wl : List Nat) (p : Prophecy) (hv : ValsWF vals) (hwf : ProphecyWF p) :
+    processCompletion ord₁ vals wl p = processCompletion ord₂ vals wl p := by
+  unfold processCompletion
+  exact processCompletionOn_perm vals wl p _ _ (h₁ _) (h₂ _) hv hwf.1 hwf.2.1
+
+/-- …and therefore neither does `ProcessClaim`: result, status, final claim and stored state coincide for any
+    two iteration orders. -/
+theorem processClaim_perm_invariant (ord₁ ord₂ : List Group → List Group) (h₁ : ∀ l, (ord₁ l).Perm l) (h₂ : ∀ l, (ord₂ l).Perm l)
+    (vals : List Validator) (st : OState) (c : Claim) (hv : ValsWF vals) (hwf : OStateWF st) :
+    processClaim ord₁ vals st c = processClaim ord₂ vals st c := by
+  unfold processClaim
+  by_cases hw : inWhiteList st.whitelist c.validator = true
+  · by_cases ha : checkActive vals c.validator = true
+    · by_cases hid : (c.id == "") = true
+      · simp [hw, ha, hid]
+      · by_cases hc : (c.content == Content.empty) = true
+        · simp [hw, ha, hid, hc]
+        · by_cases hp : (((getProphecy st.prophecies c.id).getD (newProphecy c.id)).status != StatusText.pending) = true
+          · simp [hw, ha, hid, hc, hp]
+          · by_cases hd : hasClaim ((getProphecy st.prophecies c.id).getD (newProphecy c.id)) c.validator = true
+            · simp [hw, ha, hid, hc, hp, hd]
+            · have hq : ProphecyWF (addClaim ((getProphecy st.prophecies c.id).getD (newProphecy c.id)) c.validator c.content) :=
+                addClaim_wf _ _ _ (getD_wf st c.id hwf) (by simpa using hd) (by simpa using hc)
+              simp only [hw, ha, hid, hc, hp, hd, Bool.not_true, Bool.false_eq_true, if_false]
+              rw [tally_perm_invariant ord₁ ord₂ h₁ h₂ vals st.whitelist _ hv hq]
+    · simp [hw, ha]
+  · simp [hw]
+
+/-- non-vacuity of the order hypotheses: the identity and list reversal are permutation-valued -/
+example : (∀ l : List Group, (id l).Perm l) ∧ (∀ l : List Group, (l.reverse).Perm l) :=
+  ⟨fun _ => List.Perm.refl _, fun l => List.reverse_perm l⟩
 
 end Sif.Props.C05
